@@ -165,6 +165,19 @@ def check_source(sfkind, version, chartkind, vector, seed, empty_value=""):
         again = f"{type(e).__name__}: {e}"
     if again != got:
         return [{"clause": "a second TimingData built from the same simfile and chart differs from the first", "expected": got, "observed": again}], from_chart
+    # the lists of a TimingData belong to it: editing them in place does not show in one built afterwards
+    try:
+        for lst in (td.bpms, td.stops, td.delays, td.warps):
+            lst.append(lst[0]) if len(lst) else None
+            del lst[:1]
+        td.bpms.clear()
+        third = td_observation(TimingData(sf, ch) if ch is not None else TimingData(sf))
+    except core.WatchdogTimeout:
+        raise
+    except Exception as e:
+        third = f"{type(e).__name__}: {e}"
+    if third != got:
+        return [{"clause": "editing one TimingData's lists in place changes a TimingData built afterwards from the same source", "expected": got, "observed": third}], from_chart
     if got != want:
         mixed = [k for k in got if got[k] != want[k]]
         return [{
@@ -403,7 +416,7 @@ def explore_shard(acc, shard):
         bpms_lists = ["0.000=120.000", "0.000=120.000,\n4.000=60.000", "0.000=90.000,\n4.000=180.000,\n8.000=135.5", "0.000=200,\n1.000=100,\n2.000=300",
                       "0.000=150,\n16.000=150.000", "0.000=75,\n4.000=75,\n8.000=75.0", "0.000=100,\n0.000=200,\n8.000=150",
                       # magnitudes: a BPM beyond 100000 next to an ordinary one, the ends of the usual range, many digits
-                      "0.000=120.000,\n4.000=100000.001", "0.000=1,\n4.000=2000,\n8.000=0.001", "0.000=133.33333333333333333333333333,\n4.000=133.33333333333333333333333334"]
+                      "0.000=120.000,\n4.000=100000.001", "0.000=1,\n4.000=2000,\n8.000=0.001", "0.000=1E1", "0.000=1.2E+2,\n4.000=5e-1", "0.000=133.33333333333333333333333333,\n4.000=133.33333333333333333333333334"]
         vecs = [v for v in vectors(1)] if chartkind == "ssc" else [tuple([0] * len(PROPS))]
         states3 = ("absent", "empty", "value")
         case = None
